@@ -304,6 +304,17 @@ func TestC16Stream(t *testing.T) {
 		}
 	})
 	rec.Exhaustive("stream")
+	// watchdog answers of one state machine for several peers at the same moment: every DWA mirrors
+	// the request it answers (identifiers, P bit), not another connection's
+	rec.Suite("concurrent-dwas", rec.N(40, 20000), func(c *ev.Case) {
+		K := 2 + c.I%6
+		c.Class("concurrent-dwas/K=%d", K)
+		leak := runBubbleWD(t, rec, c, 60*time.Second, func() { runC13Concurrent(c, ctx, K, 40) })
+		if leak != "" && !c.Failed() {
+			c.Fail(ev.Sig{"op": "bubble-leak"}, nil, nil, "goroutines left blocked: %s", leak)
+		}
+		c.Event("stream_answers_checked", K*40)
+	})
 	rec.Suite("concurrent-answers", rec.N(60, 6000), func(c *ev.Case) {
 		n := []int{2, 3, 8, 16}[c.R.IntN(4)]
 		viaRetry := c.R.IntN(3) == 0
